@@ -146,10 +146,9 @@ PARTIAL = (
     "the patched bytes = canonFile -, no `stringsFit` hypothesis) and "
     "fmtE_width_fixed, width_fixed, field_roundtrip_fixed, ascii_value_half_unit_fixed, ascii_values_roundtrip_fixed, "
     "file_roundtrip_ascii_fixed, ascii_entry_spec_fixed, decOfFx_zero (F3: fields, value blocks and whole files, no `Fits` "
-    "hypothesis; width for digits >= 1, value and file theorems for digits >= 2 because the float() lemma pyFloat_sciChars "
-    "needs a decimal point in the mantissa and the fallback of digits = 1 prints none; the whole-file chain is the chain "
-    "of file_roundtrip_ascii copied into the namespace Op4AFx - Lemmas/Op4FixedChain{A,B,C}.lean - with the three facts "
-    "about the formatter replaced); NOT done for the candidates: digits = 1 in the F3 value theorems, read_back_bits for the "
+    "hypothesis, every digits 1..73 - with digits = 1 the fallback prints one digit and no point, pyFloat_sciChars0; the "
+    "whole-file chain is the chain of file_roundtrip_ascii copied into the namespace Op4AFx - Lemmas/Op4FixedChain{A,B,C}.lean "
+    "- with the three facts about the formatter replaced); NOT done for the candidates: read_back_bits for the "
     "patched writer (it holds for a `Wide` value from 17 digits on only), the sparse views and the sparse-input branch "
     "of the patched writers (tied by the candidate checks, not proved)"
 )
